@@ -1,3 +1,4 @@
 //! Conformance harness for the bgpfu-rs TLA+ specification.
 pub mod memtransport;
 pub mod util;
+pub mod wsess;
